@@ -108,6 +108,13 @@ def gaussFirstBad (D : Nat) (t : List GaussRow) (deg T : Nat) : Option Nat :=
 def triDeg (o : Nat) : Nat := o
 def gaussDeg (n : Nat) : Nat := if n = 9 then 15 else 2 * n - 1
 
+/-- **accept / reject decision of every public area entry point** (`compute_face_areas`,
+    `calculate_total_face_area`, `UxDataArray.integrate`): rule 0 = "gaussian", 1 = "triangular";
+    an order is accepted iff the code has a table for it (the regenerated table keys). -/
+def supported (rule order : Nat) : Bool :=
+  (rule == 1 && Gen.Quad.TRI_ORDERS.contains order) ||
+  (rule == 0 && Gen.Quad.GAUSS_ORDERS.contains order)
+
 /-! ## 2. Geometry, generic over the scalar type -/
 
 structure V3 (K : Type) where
